@@ -399,7 +399,7 @@ def run_case(case):
 def main(tier, seed):
     V = core.Verdict(PROPERTY, tier, seed)
     r = core.rng(PROPERTY, seed)
-    nb = 480 if tier == "quick" else 8000
+    nb = 720 if tier == "quick" else 8000
     have512 = 'avx512f' in open('/proc/cpuinfo').read()
     cases = {'rel': [], 'avx512': []}
     integs = ['ias15', 'whfast', 'saba', 'eos', 'leapfrog', 'mercurius', 'trace', 'bs', 'janus']
